@@ -140,6 +140,52 @@ def build_model_driver():
 # ------------------------------------------------------------------------
 # running suites
 
+def run_model(model_driver, cf, timeout, env):
+    """Evaluates the extracted model on a case file; returns one output line per input line.
+    Rows are independent of each other except that a `schema` row defines the schema later rows refer to, so a
+    large file is cut into shards (every shard gets all schema rows) that are evaluated in parallel."""
+    import subprocess
+    lines = open(cf).read().split("\n")
+    if lines and lines[-1] == "":
+        lines.pop()
+    nsh = min(int(os.environ.get("VERIF_MODEL_SHARDS", "12")), len(lines) // 24)
+    if nsh <= 1:
+        rc, so, se = C.run([model_driver, cf], check=False, timeout=timeout, env=env)
+        if rc != 0:
+            raise RuntimeError("model driver failed: " + se[-2000:])
+        return so.split("\n")
+    procs = []
+    for k in range(nsh):
+        idx = [i for i, l in enumerate(lines) if i % nsh == k or l.startswith("schema\t")]
+        sf = "%s.shard%d" % (cf, k)
+        with open(sf, "w") as f:
+            f.write("".join(lines[i] + "\n" for i in idx))
+        # output goes to a file: a pipe would fill and serialise the shards
+        procs.append((k, idx, sf, subprocess.Popen([model_driver, sf], stdout=open(sf + ".out", "w"), stderr=subprocess.PIPE, text=True, env=env)))
+    out = ["?"] * len(lines)
+    err = None
+    for k, idx, sf, p in procs:
+        try:
+            _, se = p.communicate(timeout=timeout)
+        except subprocess.TimeoutExpired:
+            for _, _, _, q in procs:
+                q.kill()
+            raise
+        so = open(sf + ".out").read()
+        os.unlink(sf)
+        os.unlink(sf + ".out")
+        if p.returncode != 0:
+            err = se[-2000:]
+            continue
+        ol = so.split("\n")
+        for j, i in enumerate(idx):
+            if i % nsh == k and j < len(ol):
+                out[i] = ol[j]
+    if err is not None:
+        raise RuntimeError("model driver failed: " + err)
+    return out
+
+
 def run_suite(ctx, name, gen_args, timeout=1200, driver=None):
     """Run a driver command producing a case file, then the model on it.
     Returns list of rows: dict(suite,input,impl,oracle,model,spec,extra...)."""
@@ -147,9 +193,12 @@ def run_suite(ctx, name, gen_args, timeout=1200, driver=None):
     d = os.path.join(C.WORK, "cases", ctx.pid)
     os.makedirs(d, exist_ok=True)
     cf = os.path.join(d, name + ".txt")
+    t_go = time.time()
     with open(cf, "w") as f:
         import subprocess
         env = dict(os.environ, VERIF_REPO=C.REPO)
+        if ctx.tier == "thorough":
+            env.setdefault("VERIF_MAX_VAL", "160000")
         p = subprocess.run([driver or prep["driver"]] + [str(a) for a in gen_args], stdout=f, stderr=subprocess.PIPE,
                            text=True, timeout=timeout, env=env)
     if p.returncode == 97 and "VERIF-HANG" in p.stderr:
@@ -165,11 +214,11 @@ def run_suite(ctx, name, gen_args, timeout=1200, driver=None):
     menv = dict(os.environ)
     if ctx.tier == "thorough":
         menv["VERIF_MODEL_BIG"] = "1"
-    rc, so, se = C.run([prep["model_driver"], cf], check=False, timeout=timeout, env=menv)
-    if rc != 0:
-        raise RuntimeError("model driver failed: " + se[-2000:])
+    t_model = time.time()
+    mlines = run_model(prep["model_driver"], cf, timeout, menv)
+    if os.environ.get("VERIF_TIMING"):
+        C.log("timing %s/%s: implementation+oracle %.1fs, model %.1fs" % (ctx.pid, name, t_model - t_go, time.time() - t_model))
     rows = []
-    mlines = so.split("\n")
     with open(cf) as f:
         for i, line in enumerate(f):
             cols = line.rstrip("\n").split("\t")
